@@ -46,8 +46,8 @@ def judgeCEA (d : DictRt) (impl : List String) : Judged :=
     { model := model ++ " msg=" ++ msgHex, fails := fails, tags := [s!"cea {(model.splitOn " ").headD ""}"] }
   | _ => { model := "undecodable", fails := [], tags := ["cea undecodable"] }
 
-/-- `smclient dial r=<R> cfg=<k> beh=<..> post=<..> wf=<k> => out=.. cers=.. same=.. gap=.. closed=.. post=.. cer=..` -/
-def judgeDial (d : DictRt) (R cfgK wf : Nat) (behTok postTok : String) (impl : List String) : Judged :=
+/-- `smclient dial r=<R> cfg=<k> beh=<..> post=<..> wf=<k> [la=<a.b.c.d> prev=<n>] => out=.. cers=.. same=.. gap=.. closed=.. post=.. cer=..` -/
+def judgeDial (d : DictRt) (R cfgK wf : Nat) (behTok postTok : String) (la : List Nat) (impl : List String) : Judged :=
   let dfn := d.dictFn
   let beh := if behTok = "-" ∨ behTok = "" then [] else behTok.splitOn "."
   let post := if postTok = "-" ∨ postTok = "" then [] else postTok.splitOn "."
@@ -90,7 +90,7 @@ def judgeDial (d : DictRt) (R cfgK wf : Nat) (behTok postTok : String) (impl : L
   let closed := if sEnd.libClosed then 1 else 0
   -- the CER as the model builds it
   let cfg := settingsMenu cfgK
-  let ips := if cfg.hostIPs.isEmpty then [[10, 1, 2, 3]] else cfg.hostIPs
+  let ips := if cfg.hostIPs.isEmpty then [la.map UInt8.ofNat] else cfg.hostIPs
   let apps : ClientApps := {
     supportedVendor := [newAVP C.supportedVendor 64 0 (.fix T.u32 10415)]
     auth := [newAVP C.authApp 64 0 (.fix T.u32 4)]
